@@ -134,7 +134,8 @@ ASMJIT_END_NAMESPACE
 alignas(16) static unsigned char emitter_mem[sizeof(BaseEmitter)];
 
 enum Known { K_NONE, K_C07A, K_C07B };
-template<Arch ARCH, Known KNOWN>
+// CUSTOM: the frame's preserved sets are extended as a user-defined convention may do (k, mm, more xmm registers)
+template<Arch ARCH, Known KNOWN, bool CUSTOM>
 static void run(Platform plat, PlatformABI pabi, CallConvId ccid) {
   using namespace mach;
   constexpr bool k32 = ARCH == Arch::kX86;
@@ -166,7 +167,7 @@ static void run(Platform plat, PlatformABI pabi, CallConvId ccid) {
     FuncAttributes::kX86_MMXCleanup | FuncAttributes::kX86_AVXCleanup | FuncAttributes::kX86_AVXAutoCleanup;
   f.add_attributes(FuncAttributes(nondet_u32()) & kUserAttrs);
   if (nondet_bool()) { uint32_t sa = nondet_u8() & (k32 ? 7 : 15); V_ASSUME(sa != 4); f.set_sa_reg_id(sa); }
-  if (nondet_bool()) {   // a user-defined convention may also preserve k, mm and more vector registers
+  if (CUSTOM) {   // a user-defined convention may also preserve k, mm and more vector registers
     f._preserved_regs[RegGroup::kVec] |= nondet_u32() & 0xFFFF; f._preserved_regs[RegGroup::kMask] |= nondet_u32() & 0xFF; f._preserved_regs[RegGroup::kX86_MM] |= nondet_u32() & 0xFF;
   }
   uint32_t pres_gp = f.preserved_regs(RegGroup::kGp), pres_vec = f.preserved_regs(RegGroup::kVec), pres_k = f.preserved_regs(RegGroup::kMask), pres_mm = f.preserved_regs(RegGroup::kX86_MM);
@@ -256,13 +257,14 @@ static const CallConvId ids32[8] = { CallConvId::kCDecl, CallConvId::kStdCall, C
                                      CallConvId::kRegParm3, CallConvId::kLightCall2, CallConvId::kLightCall4 };
 HARNESS h_prolog_x86() {
   uint32_t k = nondet_u8(); bool win = (k & 8) != 0;
-  run<Arch::kX86, K_NONE>(win ? Platform::kWindows : Platform::kLinux, win ? PlatformABI::kMSVC : PlatformABI::kGNU, ids32[k & 7]);
+  run<Arch::kX86, K_NONE, false>(win ? Platform::kWindows : Platform::kLinux, win ? PlatformABI::kMSVC : PlatformABI::kGNU, ids32[k & 7]);
 }
 HARNESS h_prolog_x86_kf_C07A() {
   uint32_t k = nondet_u8(); bool win = (k & 8) != 0;
-  run<Arch::kX86, K_C07A>(win ? Platform::kWindows : Platform::kLinux, win ? PlatformABI::kMSVC : PlatformABI::kGNU, ids32[k & 7]);
+  run<Arch::kX86, K_C07A, false>(win ? Platform::kWindows : Platform::kLinux, win ? PlatformABI::kMSVC : PlatformABI::kGNU, ids32[k & 7]);
 }
-HARNESS h_prolog_x64_sysv() { run<Arch::kX64, K_NONE>(Platform::kLinux, PlatformABI::kGNU, CallConvId::kX64SystemV); }
-HARNESS h_prolog_x64_win() { run<Arch::kX64, K_NONE>(Platform::kWindows, PlatformABI::kMSVC, nondet_bool() ? CallConvId::kX64Windows : CallConvId::kVectorCall); }
-HARNESS h_prolog_x64_light() { run<Arch::kX64, K_NONE>(Platform::kLinux, PlatformABI::kGNU, CallConvId(uint32_t(CallConvId::kLightCall2) + nondet_u8() % 3)); }
-HARNESS h_prolog_x64_kf_C07B() { run<Arch::kX64, K_C07B>(Platform::kLinux, PlatformABI::kGNU, CallConvId::kX64SystemV); }
+HARNESS h_prolog_x64_sysv() { run<Arch::kX64, K_NONE, false>(Platform::kLinux, PlatformABI::kGNU, CallConvId::kX64SystemV); }
+HARNESS h_prolog_x64_win() { run<Arch::kX64, K_NONE, false>(Platform::kWindows, PlatformABI::kMSVC, nondet_bool() ? CallConvId::kX64Windows : CallConvId::kVectorCall); }
+HARNESS h_prolog_x64_light() { run<Arch::kX64, K_NONE, false>(Platform::kLinux, PlatformABI::kGNU, CallConvId(uint32_t(CallConvId::kLightCall2) + nondet_u8() % 3)); }
+HARNESS h_prolog_x64_kf_C07B() { run<Arch::kX64, K_C07B, true>(Platform::kLinux, PlatformABI::kGNU, CallConvId::kX64SystemV); }
+HARNESS h_prolog_x64_custom() { run<Arch::kX64, K_NONE, true>(Platform::kLinux, PlatformABI::kGNU, CallConvId::kX64SystemV); }
